@@ -702,7 +702,17 @@ func (c *Ctx) ruleInverseTables(rr *RuleRep) {
 	okID := false
 	eachInstr(p, func(in ssa.Instruction) {
 		if !c.isCallTo(in, uu) {
-			return
+			// no decoding helper: the identifier is read in place, big-endian, where it is stored into the message
+			st, isSt := in.(*ssa.Store)
+			if uu != nil || !isSt {
+				return
+			}
+			if _, isID := isFieldAddr(st.Addr, "Message", "ID"); !isID {
+				return
+			}
+			if _, _, isBE := c.beRead16(st.Val); !isBE {
+				return
+			}
 		}
 		for _, b := range p.Blocks {
 			iff := blockIf(b)
@@ -869,6 +879,17 @@ func (c *Ctx) ruleLengthPrefix(rr *RuleRep) {
 			// the prefix written out as two bytes: byte(len(s)>>8), byte(len(s))
 			if name == "appendBytes" && len(its) == 4 && its[1].Kind == "byte" && its[2].Kind == "byte" && its[3].Kind == "raw" && c.Resolve(its[3].Val) == ssa.Value(f.Params[1]) {
 				lenOf := func(v ssa.Value) bool {
+					// (through a widening or 16-bit conversion of the length: the truncation is judged above)
+					for {
+						cv, isCv := v.(*ssa.Convert)
+						if !isCv {
+							break
+						}
+						if bt, isB := cv.Type().Underlying().(*types.Basic); !isB || bt.Info()&types.IsInteger == 0 || bt.Kind() == types.Uint8 || bt.Kind() == types.Int8 {
+							break
+						}
+						v = cv.X
+					}
 					call, isCall := v.(*ssa.Call)
 					if !isCall {
 						return false
@@ -1464,7 +1485,7 @@ func (c *Ctx) ruleInboundFields(rr *RuleRep) {
 					return ok && ex.Tuple == ssa.Value(usCall) && ex.Index == resultIndexOf(us, "int")
 				}
 				isNID := func(v ssa.Value) bool {
-					if uu := c.Func("unpackUint16"); uu != nil && resultIndexOf(uu, "int") < 0 {
+					if uu := c.Func("unpackUint16"); uu == nil || resultIndexOf(uu, "int") < 0 {
 						// the identifier decoder reports no count: the two bytes of the identifier as a constant
 						k, isK := constInt(v)
 						return isK && k == 2
@@ -1506,6 +1527,54 @@ func (c *Ctx) ruleInboundFields(rr *RuleRep) {
 	if sawN && sawBoth && !other {
 		okPayload = true
 	}
+	// where the identifier is read: the two bytes right after the topic (judged when the operand is a recognisable offset into
+	// the body: contents[off:] handed to the decoder, or contents[off], contents[off+1] read in place)
+	eachInstr(p, func(in ssa.Instruction) {
+		var base, at ssa.Value
+		switch x := in.(type) {
+		case *ssa.Call:
+			uu := c.Func("unpackUint16")
+			if uu == nil || !c.isCallTo(in, uu) || len(x.Call.Args) == 0 {
+				return
+			}
+			base = x.Call.Args[0]
+		case *ssa.Store:
+			if _, isID := isFieldAddr(x.Addr, "Message", "ID"); !isID {
+				return
+			}
+			b, a, isBE := c.beRead16(x.Val)
+			if !isBE {
+				return
+			}
+			base, at = b, a
+		default:
+			return
+		}
+		low := at
+		if sl, isSl := base.(*ssa.Slice); isSl && sl.High == nil && at == nil {
+			base, low = sl.X, sl.Low
+		}
+		if base != ssa.Value(contents) {
+			return
+		}
+		if low == nil {
+			rr.Bad("pktPublish.Parse/identifier-offset", in.Pos(), "the packet identifier is read from the start of the body, where the topic is, instead of the two bytes after the topic")
+			return
+		}
+		for _, alt := range altSums(low, 0) {
+			if ex, isEx := func() (*ssa.Extract, bool) {
+				if len(alt) != 1 {
+					return nil, false
+				}
+				ex, ok := alt[0].(*ssa.Extract)
+				return ex, ok
+			}(); !isEx || ex.Tuple != ssa.Value(usCall) || ex.Index != resultIndexOf(us, "int") {
+				rr.Bad("pktPublish.Parse/identifier-offset", in.Pos(), "the packet identifier is not read from the two bytes right after the topic (offset = bytes consumed by unpackString)")
+				return
+			}
+		}
+		rr.OK("pktPublish.Parse/identifier-offset", in.Pos(), "identifier read at contents[topicLen:]")
+	})
 	if okTopic {
 		rr.OK("pktPublish.Parse/topic", usCall.Pos(), "Topic = string decoded by unpackString(contents)")
 	} else {
